@@ -2123,6 +2123,15 @@ coap_oscore_overhead(coap_session_t *session, coap_pdu_t *pdu) {
     overhead += 2 + coap_opt_length(option);
   }
 
+  /*
+   * Splitting the options into an inner and an outer sequence changes their
+   * neighbours: a delta may need up to two extension bytes that it did not
+   * need before
+   */
+  coap_option_iterator_init(pdu, &opt_iter, COAP_OPT_ALL);
+  while (coap_option_next(&opt_iter))
+    overhead += 2;
+
   /* Proxy URI option Split - covered by coap_rebuild_pdu_for_proxy () */
 
   /* OSCORE option */
